@@ -85,7 +85,21 @@ def gen_machine(rng: hlib.Rng, flat=None):
             reqs.append(nm)
         else:
             reqs.append(rng.choice(names) if rng.chance(5, 6) else rng.choice(["zz", "t99"]))
-    return {"parents": parents, "trans": trans, "handlers": handlers, "init": init, "reqs": reqs}
+    # display names: normally unique; sometimes equally named states (typically sub-states of different parents, e.g. an IDLE
+    # below two parents).  The engine must tell State *objects* apart, whatever they are called.
+    snames = [f"s{i}" for i in range(n)]
+    if n >= 3 and rng.chance(1, 4):
+        for _ in range(rng.range(1, 2)):
+            a_ = rng.below(n)
+            cands = [b_ for b_ in range(n) if b_ != a_ and parents[b_] != parents[a_]] or [b_ for b_ in range(n) if b_ != a_]
+            snames[rng.choice(cands)] = snames[a_]
+    return {"parents": parents, "trans": trans, "handlers": handlers, "init": init, "reqs": reqs, "names": snames}
+
+
+def names_of(d):
+    """display names of the states, recorded with a case only when they are not the default s0, s1, ..."""
+    nm = d.get("names")
+    return {"state_names": nm} if nm and nm != [f"s{i}" for i in range(len(nm))] else {}
 
 
 def fmt_machine(d):
@@ -114,7 +128,7 @@ class Built:
         act = set(chain(parents, d["init"]))
         self.states = []
         for i in range(n):
-            self.states.append(State(enum_cls(i), f"s{i}", parent=None if parents[i] is None else self.states[parents[i]], initial=i in act))
+            self.states.append(State(enum_cls(i), (d.get("names") or [f"s{j}" for j in range(n)])[i], parent=None if parents[i] is None else self.states[parents[i]], initial=i in act))
         sm._current_state = self.states[d["init"]]
         sm._transitions = [Transition(nm, self.states[srcs[0]] if len(srcs) == 1 and len(nm) % 2 == 0 else [self.states[s] for s in srcs],
                                       self.states[dst]) for nm, srcs, dst in d["trans"]]
@@ -201,7 +215,7 @@ def run_case(res: hlib.Result, d, oracle=True):
         tr = lookup(d, r)
         allowed = tr is not None and cur0 in tr[0]
         nested = b.nested - nested0
-        case = {"machine": fmt_machine(d), "requests": d["reqs"], "at": i}
+        case = {"machine": fmt_machine(d), "requests": d["reqs"], "at": i, **names_of(d)}
         klass = "c18-nested-hier" if (hier and nested > 0) else "c18-engine"
         inv0 = [x in chain(parents, cur0) for x in range(len(parents))] == flags0
         if not allowed:
@@ -272,7 +286,7 @@ def line_labels():
         lab = None
         if t.startswith("transition = self.transition("):
             lab = "lookup"
-        elif t.startswith("if self._current_state not in transition.sources"):
+        elif t.startswith("if self._current_state") and " not in " in t:
             lab = "check"
         elif t.startswith("raise WrongSourceStateError"):
             lab, in_raise = "raise", not t.endswith(")")
@@ -545,6 +559,15 @@ WITNESS_PARENT = {"parents": [None, 0, 1, None], "trans": [("go", [3], 2), ("bac
                   "init": 3, "reqs": ["go"]}
 CONN = {"parents": [None, None, 1, 1], "trans": [("connect", [0], 2), ("disconnect", [2, 3], 0), ("select", [2], 3), ("deselect", [3], 2),
                                                   ("timeoutT7", [2], 0)], "handlers": [], "init": 2, "reqs": []}
+# equally named sub-states below different parents: A ⊃ IDLE(2), B ⊃ IDLE(3); the engine must go by the State object, not by its name
+DIRECTED = [
+    {"parents": [None, None, 0, 1], "names": ["A", "B", "IDLE", "IDLE"], "trans": [("work", [2], 1), ("rest", [3], 0)], "handlers": [],
+     "init": 3, "reqs": ["work", "rest", "rest", "work"]},
+    {"parents": [None, None, 0, 1], "names": ["A", "B", "IDLE", "IDLE"], "trans": [("work", [2], 3), ("rest", [3], 2)], "handlers": [],
+     "init": 2, "reqs": ["rest", "work", "work", "rest", "rest"]},
+    {"parents": [None, None, None], "names": ["X", "X", "Y"], "trans": [("a", [0], 2), ("b", [1], 2), ("c", [2], 1)], "handlers": [],
+     "init": 1, "reqs": ["a", "b", "c", "a"]},
+]
 RACE_SCHEDULE = [0, 0, 1, 1, 0, 0, 1, 1, 0, 0, 1, 1, 0, 1, 0, 1]
 
 
@@ -573,7 +596,7 @@ def main():
     big = a.tier == "thorough" or a.search
     res.rule = ("random machine definitions (2-8 states, forest depth <= 3, 1-10 transitions incl. duplicate names, handler tables on enter/leave/called "
                 "events incl. unknown names and once-only handlers) instantiated with the real State/Transition/StateMachine, random request sequences "
-                "(1-8, 10% unknown names); the three shipped machines under random and (thorough) exhaustive request sequences; two concurrent "
+                "(1-8, 10% unknown names); a quarter of the machines with >= 3 states have states sharing a display name (preferably under different parents) plus three directed ones; the three shipped machines under random and (thorough) exhaustive request sequences; two concurrent "
                 "_perform_transition calls under line-level schedules (settrace baton). distinct = distinct (machine, handlers, initial state, "
                 "request sequence or schedule); non-trivial = at least one request was allowed")
     replay_cases = None
@@ -589,6 +612,7 @@ def main():
                 continue
             if "schedule" in c:
                 d = parse_machine(c["machine"], [])
+                d["names"] = c.get("state_names")
                 sch = [int(x.split(".")[0]) for x in c["schedule"]]
                 lines_ = []
                 r = race_case(res, lines_, d, c["a"], c["b"], sch, labels)
@@ -597,6 +621,7 @@ def main():
                                 {"one of": [list(x) for x in r[5]]}, list(r[4]))
             else:
                 d = parse_machine(c["machine"], c.get("requests") or [])
+                d["names"] = c.get("state_names")
                 run_case(res, d)
             res.count(("replay", c["machine"]))
 
@@ -606,10 +631,12 @@ def main():
     # ------------------------------------------------------------ A. random machines: correspondence + oracle
     cases, lines, answers = [], [], []
     n_rand = 20000 if big else 6000
-    for i in range(n_rand):
-        d = gen_machine(rng)
+    for i in range(n_rand + len(DIRECTED)):
+        d = dict(DIRECTED[i]) if i < len(DIRECTED) else gen_machine(rng)
+        if len(set(d["names"])) != len(d["names"]):
+            res.bump("display_names", "some states share a display name")
         ans = run_case(res, d)
-        cases.append({"machine": fmt_machine(d), "requests": d["reqs"]})
+        cases.append({"machine": fmt_machine(d), "requests": d["reqs"], **names_of(d)})
         lines.append(f"sm run {fmt_machine(d)} R=" + (",".join(d["reqs"]) or "-"))
         answers.append(ans)
         nontriv = "res=" in ans and "ok" in ans.split("res=")[1].split(",")
@@ -661,7 +688,7 @@ def main():
                 res.notes.append("scheduler: a thread did not come back within the bound (skipped)")
                 continue
             ans, steps, ok, inv, got, serial = r
-            sched_cases.append({"machine": fmt_machine(d), "a": x, "b": y, "steps": [f"{t}.{l}" for t, l in steps]})
+            sched_cases.append({"machine": fmt_machine(d), "a": x, "b": y, "steps": [f"{t}.{l}" for t, l in steps], **names_of(d)})
             sched_answers.append(ans)
             res.count(("sched", fmt_machine(d), x, y, tuple(steps)), sample={"sched": sched_lines[-1][:240], "impl": ans[:160]} if is_witness else None)
             res.bump("sched_outcome", "serialisable" if ok and inv else "not serialisable / inconsistent flags")
@@ -670,7 +697,7 @@ def main():
                 if n_bad <= 3 or is_witness:
                     res.violate("c18-race", "two concurrent _perform_transition calls: the result is not that of either sequential order"
                                 + ("" if inv else " (active flags inconsistent)"),
-                                {"machine": fmt_machine(d), "a": x, "b": y, "schedule": [f"{t}.{l}" for t, l in steps]},
+                                {"machine": fmt_machine(d), "a": x, "b": y, "schedule": [f"{t}.{l}" for t, l in steps], **names_of(d)},
                                 {"one of": [list(s) for s in serial]}, list(got))
         res.bump("witness", "race select||disconnect: " + ("reproduced" if n_bad else "not reproduced (repaired?)"))
         hlib.compare_batch(res, drv, "two threads in _perform_transition under a line schedule vs Model.SMSched", sched_cases, sched_lines, sched_answers)
